@@ -47,11 +47,13 @@ func HProtectFrame() {
 	objs := append(message.IKEPayloadContainer{}, m.Payloads...)
 	snap := message.VClonePayloads(m.Payloads)
 	hdr := *m.IKEHeader
+	tok := vr.FrameBegin(objs)
 	b, err := EncodeEncrypt(m, k, vRole(role))
 	vr.Assert("c20.protect.noerr", err == nil)
 	if err != nil {
 		return
 	}
+	vr.Assert("c20.protect-writes-no-payload-state", vr.FrameUnchanged(tok))
 	vr.Assert("c20.protect-frame.header", message.VEqHeader(&hdr, m.IKEHeader))
 	vr.Assert("c20.protect-frame.list", len(m.Payloads) == 1 && m.Payloads[0].Type() == message.TypeSK)
 	vr.Assert("c20.protect-frame.payloads", message.VEqPayloadsExact(snap, objs))
